@@ -206,6 +206,9 @@ func (t *sseClientTransport) start(ctx context.Context) error {
 		// Endpoint received, proceed.
 		t.started.Store(true)
 		return nil
+	case <-sseCtx.Done():
+		// readSSE ran close(): the event stream ended before the endpoint event arrived.
+		return errors.New("SSE stream ended before the endpoint event was received")
 	case <-ctx.Done():
 		t.close()
 		return fmt.Errorf("context cancelled while waiting for endpoint: %w", ctx.Err())
